@@ -292,6 +292,84 @@ theorem reply_complete_has_code {S : Type} (rl : S → Bytes × S) (fuel : Nat) 
             exact ⟨hcode, hs⟩
           · exact ih _ _ _ h hs
 
+/-- a line piece of the form `ddd<space>text` (RFC 959: the only kind of line that ends a reply) -/
+def codeSpace (p : Bytes) : Bool :=
+  match digits3? p with
+  | some (_, 32 :: _) => true
+  | _ => false
+
+theorem parseLine_code {r r' : Reply} {p : Bytes} (h : parseLine r p = .ok r')
+    (hn : r.code = none) (hs : r'.code.isSome) : codeSpace p = true := by
+  unfold parseLine at h
+  unfold codeSpace
+  rcases hd : digits3? p with _ | ⟨n, t⟩
+  · simp [hd, hn] at h
+    subst h
+    simp [hn] at hs
+  · rcases t with _ | ⟨c, t⟩
+    · simp [hd, hn] at h
+      subst h
+      simp [hn] at hs
+    · by_cases hc : c = 32
+      · subst hc; rfl
+      · by_cases hc2 : c = 45
+        · subst hc2
+          simp [hd, hn] at h
+          subst h
+          simp [hn] at hs
+        · simp [hd, hn] at h
+          subst h
+          simp [hn] at hs
+          split at hs <;> simp_all
+
+theorem foldlM_parseLine_code : ∀ (ps : List Bytes) (r r' : Reply),
+    ps.foldlM parseLine r = .ok r' → r.code = none → r'.code.isSome →
+    ∃ p ∈ ps, codeSpace p = true := by
+  intro ps
+  induction ps with
+  | nil =>
+    intro r r' h hn hs
+    simp [List.foldlM, pure, Except.pure] at h
+    subst h; simp [hn] at hs
+  | cons p ps ih =>
+    intro r r' h hn hs
+    simp only [List.foldlM_cons, bind, Except.bind] at h
+    rcases hp : parseLine r p with e | r1
+    · simp [hp] at h
+    · simp only [hp] at h
+      by_cases h1 : r1.code.isSome
+      · exact ⟨p, by simp, parseLine_code hp hn h1⟩
+      · have hn1 : r1.code = none := by simpa using h1
+        obtain ⟨q, hq, hc⟩ := ih r1 r' h hn1 hs
+        exact ⟨q, by simp [hq], hc⟩
+
+/-- **C17 (b″)** A reply ends only at a line holding a piece `ddd<space>…`: free text of a multi-line
+reply that merely begins with digits (`2260 of 5000 bytes`) never ends it.  The last line the reader
+consumed contains such a piece (a bare CR inside a line counts as a line end, as `bytes.splitlines` does). -/
+theorem reply_ends_at_code_line {S : Type} (rl : S → Bytes × S) (fuel : Nat) (r0 : Reply)
+    (seen0 : List Bytes) (s : S) (r : Reply) (rest : S) (seen : List Bytes)
+    (h : readReplyLoop rl fuel r0 seen0 s = .ok r rest seen) (h0 : r0.code = none) :
+    ∃ l, seen.getLast? = some l ∧ ∃ p ∈ splitlinesB l, codeSpace p = true := by
+  induction fuel generalizing r0 seen0 s with
+  | zero => simp [readReplyLoop] at h
+  | succ n ih =>
+    unfold readReplyLoop at h
+    simp only at h
+    split at h
+    · cases h
+    · split at h
+      · cases h
+      · split at h
+        · cases h
+        · rename_i r' hr'
+          split at h
+          · rename_i hcode
+            cases h
+            refine ⟨(rl s).1, by simp, ?_⟩
+            exact foldlM_parseLine_code _ _ _ hr' h0 hcode
+          · rename_i hcode
+            exact ih _ _ _ h (by simpa using hcode)
+
 /-- **C17 (c)** A transfer is reported complete only after the data connection
 was closed by the server *and* the server confirmed with 226 on the control
 connection; the body is then exactly the bytes of the data stream, whatever
